@@ -191,6 +191,9 @@ def classify(diags, linemap, genfile):
             if md and md.get('kind') in ('spec', 'prelude', 'module_items', 'inimpl', 'intrait') and fn is None:
                 module = md.get('kind')
         for s in spans:
+            lab = (s.get('label') or '')
+            if lab.startswith('at this') or lab.startswith('at the end'):
+                continue        # the exit / body span says WHERE the obligation failed, not WHICH obligation
             for ln in range(s['line_start'], min(s.get('line_end', s['line_start']), s['line_start'] + 40) + 1):
                 md = linemap.get(ln) or linemap.get(str(ln))
                 if md and md.get('obligation') and md.get('kind') not in ('body',):
